@@ -33,6 +33,11 @@ impl Store {
         }
     }
 
+    #[cfg(feature = "verif")]
+    pub fn verif_teardown(&self) {
+        self.collections.write().unwrap().clear();
+    }
+
     pub fn collection<DATA>(&self) -> Arc<dyn DbCollection<Item = DATA>>
     where
         DATA: DbCollectionIden + Send + Sync + 'static,
